@@ -457,7 +457,7 @@ pub fn arb_op() -> impl Strategy<Value = Op> {
 }
 
 pub fn run(ctx: &mut Ctx) {
-    ctx.rule = "two honest nodes built from the real routing threads (A connects to B) and an attacker with three connections of its own (two to B, one to A) who also sits on the honest link; generated sequences of 4..14 operations: connect, deliver in order, drop, reorder, replay any observed message to any endpoint (incl. redirect across connections and reflection), attacker responses signed with its own key over the right / another connection's / a random challenge with ok / unset / incompatible version claiming its own or the honest peer's key, attacker challenges (random, or another endpoint's challenge: signing-oracle attempt), unsolicited traffic, dropped connections that are dialled again under the same connection index (plus two directed families: the honest link drops at every point of the handshake, is re-dialled, and every message seen so far is replayed to either end; the attacker reflects a node's own first messages back to it on the attacker's connection). monitor (from the honest nodes' outgoing messages the harness knows which challenge each node issued on which connection): every handshake completion (interface event or status change to Connected under key K) must coincide with the delivery, on that connection, of a response whose signature verifies for K over a challenge issued by this node on this connection that was not accepted before, and K must not be the node's own key (a reflected signature was not produced by the remote side); a delivery that completes nothing leaves status, key and key->connection entry of every other authenticated connection unchanged. evaluations = operations. non-trivial = sequence with a completed handshake side and a delivery that completed nothing; distinct by case digest".into();
+    ctx.rule = "two honest nodes built from the real routing threads (A connects to B) and an attacker with three connections of its own (two to B, one to A) who also sits on the honest link; generated sequences of 4..14 operations: connect, deliver in order, drop, reorder, replay any observed message to any endpoint (incl. redirect across connections and reflection), attacker responses signed with its own key over the right / another connection's / a random challenge with ok / unset / incompatible version claiming its own or the honest peer's key, attacker challenges (random, or another endpoint's challenge: signing-oracle attempt), unsolicited traffic, dropped connections that are dialled again under the same connection index (plus two directed families: the honest link drops at every point of the handshake, is re-dialled, and every message seen so far is replayed to either end; the attacker reflects a node's own first messages back to it on the attacker's connection; the attacker relays a challenge so that its connection is authenticated under the honest peer's key and merged with that peer's half-open re-dial, then delivers the answer to the old connection's counter-challenge on it). monitor (from the honest nodes' outgoing messages the harness knows which challenge each node issued on which connection): every handshake completion (interface event or status change to Connected under key K) must coincide with the delivery, on that connection, of a response whose signature verifies for K over a challenge issued by this node on this connection that was not accepted before, and K must not be the node's own key (a reflected signature was not produced by the remote side); a delivery that completes nothing leaves status, key and key->connection entry of every other authenticated connection unchanged. evaluations = operations. non-trivial = sequence with a completed handshake side and a delivery that completed nothing; distinct by case digest".into();
     ctx.assumptions.push("The attacker cannot forge signatures. A live relay of the very challenge (K signs, in its own handshake, the challenge the victim issued to the attacker) satisfies the statement's letter and is counted, not flagged.".into());
     // directed prefix: the honest handshake, in order, must complete on both sides
     let honest = Case { ops: vec![Op::Connect(0), Op::Deliver(1), Op::Deliver(0), Op::Deliver(1)] };
@@ -479,6 +479,40 @@ pub fn run(ctx: &mut Ctx) {
                 let case = Case { ops: vec![Op::Connect(conn), Op::Replay { k: k1, e }, Op::Replay { k: k2, e }, Op::Replay { k: k2.wrapping_add(1), e }] };
                 for (key, w) in eval(ctx, &case, true) {
                     ctx.violation(&key, w, json!({"check": "reflection", "case": case}));
+                }
+            }
+        }
+    }
+    // directed: relay and merge. The honest link is established, drops, and is being re-dialled (A has
+    // a counter-challenge outstanding on it); meanwhile the attacker relays A's challenge on the
+    // attacker's own connection to B (which signs every challenge it is sent), so that this
+    // connection is authenticated under B's key and A merges its old entry for B into it; then the
+    // re-dial is carried on and B's answer to the counter-challenge of the OLD connection is
+    // delivered on the attacker's connection. Which observed messages are replayed is enumerated.
+    {
+        let prefix = vec![
+            Op::Connect(0),
+            Op::Deliver(1),
+            Op::Deliver(0),
+            Op::Deliver(1),
+            Op::Disconnect(0),
+            Op::Connect(0),
+            Op::Deliver(1),
+            Op::Connect(2),
+            Op::Connect(1),
+        ];
+        for k5 in 4..12u8 {
+            for k6 in 6..14u8 {
+                for k8 in 8..16u8 {
+                    let mut ops = prefix.clone();
+                    ops.push(Op::Replay { k: k5, e: 2 }); // A's challenge for the attacker's connection -> B
+                    ops.push(Op::Replay { k: k6, e: 3 }); // B's signature over it -> A, on the attacker's connection
+                    ops.push(Op::Deliver(0)); // the re-dial goes on: A's response (with the old counter-challenge) -> B
+                    ops.push(Op::Replay { k: k8, e: 3 }); // B's answer to it -> A, on the attacker's connection
+                    let case = Case { ops };
+                    for (key, w) in eval(ctx, &case, true) {
+                        ctx.violation(&key, w, json!({"check": "relay_and_merge", "case": case}));
+                    }
                 }
             }
         }
